@@ -84,6 +84,14 @@ def grid_weight(rng, decimals: int) -> float:
 
 
 # =============================================================================================== generation
+def assign(obj, **fields):
+    """Set every generated field AGAIN by attribute assignment: the original engine must not depend on the constructors
+    routing their arguments correctly (the rebuilt engine does: that is what is being checked)."""
+    for k, v in fields.items():
+        setattr(obj, k, v)
+    return obj
+
+
 def shape_params(fl, cls: str) -> list[str]:
     return [p for p in inspect.signature(getattr(fl, cls).__init__).parameters if p not in ("self", "name", "height")]
 
@@ -110,7 +118,9 @@ def gen_shape(fl, rng, name: str, lo: float, hi: float, wild: bool, classes=None
             vals[0] = -math.inf
         if cls in ("Trapezoid", "PiShape", "Rectangle", "Triangle") and rng.random() < 0.15:
             vals[-1] = math.inf
-    return getattr(fl, cls)(name, *[float(v) for v in vals], gen_height(rng))
+    h = gen_height(rng)
+    t = getattr(fl, cls)(name, *[float(v) for v in vals], h)
+    return assign(t, name=name, height=h, **{n: float(v) for n, v in zip(names, vals)})
 
 
 def gen_discrete(fl, rng, name, lo, hi, wild):
@@ -120,9 +130,13 @@ def gen_discrete(fl, rng, name, lo, hi, wild):
     else:
         xs = sorted(rng.uniform(lo, hi) for _ in range(n))
         xy = [v for x in xs for v in (x, rng.random())]
+    h = gen_height(rng)
     if n == 0 and rng.random() < 0.5:
-        return fl.Discrete(name, None, gen_height(rng))
-    return fl.Discrete(name, xy, gen_height(rng))
+        return assign(fl.Discrete(name, None, h), name=name, height=h)
+    t = assign(fl.Discrete(name, xy, h), name=name, height=h)
+    if n > 0:
+        t.values = np.array([[float(xy[2 * i]), float(xy[2 * i + 1])] for i in range(n)], dtype=float)
+    return t
 
 
 def ident(rng, base: str) -> str:
@@ -145,8 +159,9 @@ def gen_engine(fl, rng):
             tn = ident(rng, f"t{i}{k}")
             terms.append(gen_discrete(fl, rng, tn, lo, hi, wild) if rng.random() < 0.12 else gen_shape(fl, rng, tn, lo, hi, wild))
         vmin, vmax = (wild_float(rng, True), wild_float(rng, True)) if wild else (lo, hi)
-        inputs.append(fl.InputVariable(name=names_in[i], description=rng.choice(DESCRIPTIONS), enabled=rng.random() > 0.1, minimum=float(vmin), maximum=float(vmax),
-                                       lock_range=rng.random() < 0.25, terms=terms))
+        f = dict(name=names_in[i], description=rng.choice(DESCRIPTIONS), enabled=rng.random() > 0.1, minimum=float(vmin), maximum=float(vmax),
+                 lock_range=rng.random() < 0.25, terms=terms)
+        inputs.append(assign(fl.InputVariable(**f), **f))
     outputs = []
     for i in range(n_out):
         lo = rng.choice([0.0, -1.0, -5.0])
@@ -158,9 +173,11 @@ def gen_engine(fl, rng):
             if kind == "sugeno":
                 c = rng.random()
                 if c < 0.4:
-                    terms.append(fl.Constant(tn, float(wild_float(rng, True) if wild or rng.random() < 0.2 else rng.uniform(lo, hi))))
+                    cv = float(wild_float(rng, True) if wild or rng.random() < 0.2 else rng.uniform(lo, hi))
+                    terms.append(assign(fl.Constant(tn, cv), name=tn, value=cv))
                 elif c < 0.7:
-                    terms.append(fl.Linear(tn, [float(any_finite(rng) if wild else rng.uniform(-2, 2)) for _ in range(n_in + 1)]))
+                    cf = [float(any_finite(rng) if wild else rng.uniform(-2, 2)) for _ in range(n_in + 1)]
+                    terms.append(assign(fl.Linear(tn, list(cf)), name=tn, coefficients=list(cf)))
                 else:
                     v = {}
                     formula = " + ".join(rng.sample(names_in, rng.randint(1, n_in))) + rng.choice(["", " * 2", " / 3.5", " - 1e-3", " ^ 2"])
@@ -168,24 +185,25 @@ def gen_engine(fl, rng):
                         for key in rng.sample(["k", "zeta", "alpha", "b2"], rng.choice([1, 2, 3])):
                             v[key] = float(any_finite(rng))
                         formula += " + " + " * ".join(v)
-                    terms.append(fl.Function(tn, formula, variables=v or None))
+                    terms.append(assign(fl.Function(tn, formula, variables=v or None), name=tn, formula=formula, variables=dict(v)))
             elif kind == "tsukamoto":
                 terms.append(gen_shape(fl, rng, tn, lo, hi, wild, ["Ramp", "SShape", "ZShape", "Sigmoid", "Concave", "Arc"]))
             else:
                 terms.append(gen_discrete(fl, rng, tn, lo, hi, wild) if rng.random() < 0.12 else gen_shape(fl, rng, tn, lo, hi, wild))
         if kind == "integral":
             res = rng.choice([None, 1000, 100, 50, 17, 1, 2, 1001])
-            defuzz = getattr(fl, rng.choice(INTEGRAL))(res)
+            defuzz = assign(getattr(fl, rng.choice(INTEGRAL))(res), resolution=res or fl.IntegralDefuzzifier.default_resolution)
         else:
             ty = rng.choice(["Automatic", "Automatic", "TakagiSugeno" if kind == "sugeno" else "Tsukamoto"])
-            defuzz = getattr(fl, rng.choice(["WeightedAverage", "WeightedSum"]))(ty)
+            defuzz = assign(getattr(fl, rng.choice(["WeightedAverage", "WeightedSum"]))(ty), type=fl.WeightedDefuzzifier.Type[ty])
         if rng.random() < 0.04:
             defuzz = None
         vmin, vmax = (wild_float(rng, True), wild_float(rng, True)) if wild else (lo, hi)
         default = rng.choice([math.nan, math.nan, wild_float(rng, True), round(rng.uniform(lo, hi), 2)])
-        outputs.append(fl.OutputVariable(name=ident(rng, f"out{i}"), description=rng.choice(DESCRIPTIONS), enabled=rng.random() > 0.1, minimum=float(vmin), maximum=float(vmax),
-                                         lock_range=rng.random() < 0.3, lock_previous=rng.random() < 0.3, default_value=float(default),
-                                         aggregation=None if rng.random() < 0.1 else getattr(fl, rng.choice(SNORMS))(), defuzzifier=defuzz, terms=terms))
+        f = dict(name=ident(rng, f"out{i}"), description=rng.choice(DESCRIPTIONS), enabled=rng.random() > 0.1, minimum=float(vmin), maximum=float(vmax),
+                 lock_range=rng.random() < 0.3, lock_previous=rng.random() < 0.3, default_value=float(default),
+                 aggregation=None if rng.random() < 0.1 else getattr(fl, rng.choice(SNORMS))(), defuzzifier=defuzz, terms=terms)
+        outputs.append(assign(fl.OutputVariable(**f), **f))
     blocks = []
 
     def proposition(vars_):
@@ -217,21 +235,26 @@ def gen_engine(fl, rng):
             rules.append(rule)
         act = rng.choice(["General", "General", "First", "Last", "Highest", "Lowest", "Proportional", "Threshold"])
         if act in ("First", "Last"):
-            activation = getattr(fl, act)(rng.choice([0, 1, 2, 3, 10]), float(rng.choice([0.0, 0.1, 0.5, any_finite(rng)])))
+            f = dict(rules=rng.choice([0, 1, 2, 3, 10]), threshold=float(rng.choice([0.0, 0.1, 0.5, any_finite(rng)])))
+            activation = assign(getattr(fl, act)(**f), **f)
         elif act in ("Highest", "Lowest"):
-            activation = getattr(fl, act)(rng.choice([0, 1, 2, 3]))
+            f = dict(rules=rng.choice([0, 1, 2, 3]))
+            activation = assign(getattr(fl, act)(**f), **f)
         elif act == "Threshold":
-            activation = fl.Threshold(rng.choice(["<", "<=", "==", "!=", ">=", ">"]), float(rng.choice([0.0, 0.25, 0.5, wild_float(rng, True)])))
+            cmp_, thr = rng.choice(["<", "<=", "==", "!=", ">=", ">"]), float(rng.choice([0.0, 0.25, 0.5, wild_float(rng, True)]))
+            activation = assign(fl.Threshold(cmp_, thr), comparator=fl.Threshold.Comparator(cmp_), threshold=thr)
         else:
             activation = getattr(fl, act)()
         if rng.random() < 0.03:
             activation = None
-        blocks.append(fl.RuleBlock(name=ident(rng, f"rb{b}"), description=rng.choice(DESCRIPTIONS), enabled=rng.random() > 0.1,
-                                   conjunction=None if rng.random() < 0.04 else getattr(fl, rng.choice(TNORMS))(),
-                                   disjunction=None if rng.random() < 0.04 else getattr(fl, rng.choice(SNORMS))(),
-                                   implication=None if rng.random() < 0.04 else getattr(fl, rng.choice(TNORMS))(), activation=activation, rules=rules))
-    engine = fl.Engine(name=ident(rng, rng.choice(["e", "Engine", "my_engine", "tipper2", "x9"])), description=rng.choice(DESCRIPTIONS),
-                       input_variables=inputs, output_variables=outputs, rule_blocks=blocks)
+        f = dict(name=ident(rng, f"rb{b}"), description=rng.choice(DESCRIPTIONS), enabled=rng.random() > 0.1,
+                 conjunction=None if rng.random() < 0.04 else getattr(fl, rng.choice(TNORMS))(),
+                 disjunction=None if rng.random() < 0.04 else getattr(fl, rng.choice(SNORMS))(),
+                 implication=None if rng.random() < 0.04 else getattr(fl, rng.choice(TNORMS))(), activation=activation, rules=rules)
+        blocks.append(assign(fl.RuleBlock(**f), **f))
+    f = dict(name=ident(rng, rng.choice(["e", "Engine", "my_engine", "tipper2", "x9"])), description=rng.choice(DESCRIPTIONS),
+             input_variables=inputs, output_variables=outputs, rule_blocks=blocks)
+    engine = assign(fl.Engine(**f), **f)   # lists: the same list objects the constructor copied from; rules are loaded by the constructor
     rows = []
     for _ in range(8):
         row = []
